@@ -117,6 +117,26 @@ def done_family(hist=None):
     return out
 
 
+def parallel_history_family():
+    """a <history> directly below a <parallel>, entered from outside before anything is recorded (its default transition,
+    WITH executable content, has to be taken and reported), left and re-entered with a recorded value"""
+    N, T = G.node, G.trans
+    out = []
+    for kind, dflts in (('hs', ([4], [4, 7], [7])), ('hd', ([6, 8], [5], [9, 5]))):
+        for dflt in dflts:
+            for content in (True, False):
+                h = N(kind, 20, trans=[T(120, None, None, dflt, False, [('raise', 121, b'x')] if content else [])])
+                r1 = N('state', 4, [N('state', 5, trans=[T(101, b'n', None, [6])]), N('state', 6)])
+                r2 = N('state', 7, [N('state', 8, trans=[T(102, b'x', None, [9])]), N('state', 9)])
+                par = N('parallel', 3, [h, r1, r2], trans=[T(103, b'out', None, [1])])
+                outside = N('state', 1, trans=[T(104, b'h', None, [20]), T(105, b'p', None, [3])])
+                out.append(N('scxml', 0, [outside, par]))
+    return out
+
+
+PARALLEL_HISTORY_WORDS = [[b'h'], [b'h', b'n', b'out', b'h'], [b'p', b'n', b'out', b'h'], [b'h', b'out', b'h', b'n']]
+
+
 DONE_WORDS = [[b'e', b'f'], [b'f', b'e'], [b'e', b'f', b'g'], [b'g', b'e', b'f'], [b'e', b'g', b'f'], [b'f', b'g', b'e'], [b'e'], [b'e', b'e', b'f']]
 
 
@@ -218,6 +238,9 @@ def build_cases(c, faults=0.0):
     for t in history_family():
         for w in HISTORY_WORDS:
             cases.append({'tree': t, 'events': w, 'dm': 'null', 'late': False, 'origin': 'history-family'})
+    for t in parallel_history_family():
+        for w in PARALLEL_HISTORY_WORDS:
+            cases.append({'tree': t, 'events': w, 'dm': 'null', 'late': False, 'origin': 'parallel-history-family'})
     for t in multi_target_family():
         for w in ([b'e'], [b'e', b'e']):
             cases.append({'tree': t, 'events': w, 'dm': 'null', 'late': False, 'origin': 'multi-target-family'})
